@@ -289,6 +289,7 @@ class Event:
     def set(self):
         sched().visible_op("event.set")
         self._flag = True
+        sched().visible_op("event.set.done")
 
     def clear(self):
         self._flag = False
@@ -378,6 +379,7 @@ class Queue:
             if not ok:
                 raise _real_queue.Full
         self.queue.append(item)
+        s.visible_op("queue.put.done")      # fine mode: a thread may be preempted right after the item became visible
 
     def put_nowait(self, item):
         return self.put(item, block=False)
@@ -454,6 +456,7 @@ def _os_write(fd, data):
         raise OSError(_errno.EBADF, "bad virtual fd")
     s.visible_op("os.write")
     s.pipes[fd].append(bytes(data))
+    s.visible_op("os.write.done")
     return len(data)
 
 
